@@ -326,7 +326,8 @@ def c07():
             q = "quick" if (c, r) in [(2, 5), (5, 2), (2, 8)] else "thorough"
             add("C07", f"c07_remove_{'row' if is_row else 'col'}_u8_{c}x{r}", f"c07::remove_u8({b(is_row)}, {c}, {r})", max(c, r) + 3, q)
         for mode in (0, 2):
-            if c * r <= 12:
+            # (the ledger version of remove_col on 1x8, 2x6, 5x2 and 6x2 exhausts CBMC's memory: not registered)
+            if c * r <= 12 and (mode == 0 or (c, r) == (2, 5)):
                 add("C07", f"c07_{RMODES[mode]}_tok_{c}x{r}", f"c07::remove_tok({mode}, {c}, {r}, false, false, 0)", c * r + max(c, r) + 3, "thorough", also=["C05"])
     for (c, r) in [(1, 1), (2, 2), (1, 3), (3, 1)]:
         for is_row in (True, False):
